@@ -51,27 +51,22 @@ Ltac head_scrut t :=
   | _ => t
   end.
 
+(* decide the comparison from the context when linear arithmetic can (this both
+   evaluates closed comparisons and prunes infeasible paths), split otherwise *)
 Ltac split_atom c :=
-  let v := eval vm_compute in c in
-  lazymatch v with
-  | true => change c with true
-  | false => change c with false
-  | _ =>
-    lazymatch c with
-    | Z.ltb ?x ?y => destruct (Z.ltb_spec x y)
-    | Z.leb ?x ?y => destruct (Z.leb_spec x y)
-    | Z.eqb ?x ?y => destruct (Z.eqb_spec x y)
-    end
-  end.
-
-Ltac cstep :=
-  lazymatch goal with
-  | |- checked_post _ _ _ _ ?r =>
-      lazymatch r with
-      | Some _ => fail
-      | None => fail
-      | _ => let c := head_scrut r in split_atom c; cbv beta iota
-      end
+  lazymatch c with
+  | Z.ltb ?x ?y =>
+      first [ rewrite (proj2 (Z.ltb_lt x y)) by lia
+            | rewrite (proj2 (Z.ltb_ge x y)) by lia
+            | destruct (Z.ltb_spec x y) ]
+  | Z.leb ?x ?y =>
+      first [ rewrite (proj2 (Z.leb_le x y)) by lia
+            | rewrite (proj2 (Z.leb_gt x y)) by lia
+            | destruct (Z.leb_spec x y) ]
+  | Z.eqb ?x ?y =>
+      first [ rewrite (proj2 (Z.eqb_eq x y)) by lia
+            | rewrite (proj2 (Z.eqb_neq x y)) by lia
+            | destruct (Z.eqb_spec x y) ]
   end.
 
 Ltac quot_facts :=
@@ -82,6 +77,16 @@ Ltac quot_facts :=
       | _ => let Hq := fresh "Hq" in
              assert (Hq : y <> 0) by lia;
              pose proof (quot_rem_facts x y Hq) as [? [? ?]]; clear Hq
+      end
+  end.
+
+Ltac cstep :=
+  lazymatch goal with
+  | |- checked_post _ _ _ _ ?r =>
+      lazymatch r with
+      | Some _ => fail
+      | None => fail
+      | _ => let c := head_scrut r in split_atom c; cbv beta iota; quot_facts
       end
   end.
 
@@ -105,7 +110,8 @@ Ltac cexec f :=
   change (2 ^ 31) with 2147483648; change (2 ^ 32) with 4294967296;
   change (2 ^ 63) with 9223372036854775808; change (2 ^ 64) with 18446744073709551616;
   intros a b Ha Hb;
-  cbv beta iota zeta delta [f cif cand cor ccond cgt clt cge cle ceq cne clnot cadd csub cmul cdiv crem cneg
+  unfold f; rewrite ?ccast_clit by reflexivity;
+  cbv beta iota zeta delta [cif cand cor ccond cgt clt cge cle ceq cne clnot cadd csub cmul cdiv crem cneg
        ccast cvar clit cbool cbind1 cbind2 carith csigned in_rangeb cmin cmax cwrap cmodulus
        creturn cstore clet andb orb negb];
   repeat cstep.
@@ -172,5 +178,5 @@ Qed.
 Lemma fallback_sig_ok ty op :
   fallback_sig ty op =
   let t := match ty with I32 => TInt | I64 => TLong | U32 => TUInt | U64 | USize => TULong end in
-  ([t; t], t).
+  (cons t (cons t nil), t).
 Proof. destruct ty, op; reflexivity. Qed.
